@@ -230,6 +230,13 @@ let show_ctor kind args =
     Printf.sprintf "K=%s V=%s len=%d empty=%s from_eq=1 owned_eq=1" k (hexs v) (List.length v) (b01 (v = []))
   | "type", [t] -> Printf.sprintf "C=%s" (nstr (type_code types_tbl.(int_of_string t)))
   | "default1", _ -> "D=U"
+  | "bitor", [c; f; p] ->
+    let c = (if c = "0" then Local else Proxy) in
+    let f = [| FUnspec; FIPv4; FIPv6; FUnix |].(int_of_string f) in
+    let p = [| PUnspec; PStream; PDatagram |].(int_of_string p) in
+    Printf.sprintf "VC=%s CV=%s FP=%s PF=%s FL=%s" (nstr (version_or_command c)) (nstr (command_or_version c))
+      (nstr (family_or_protocol f p)) (nstr (protocol_or_family p f))
+      (match byte_length f with Some n -> nstr n | None -> "-")
   | _ -> failwith ("bad ctor kind " ^ kind)
 
 (* ---- payload / builder syntax (same as the harness) ---- *)
